@@ -260,9 +260,19 @@ class CSSRuleRules(CSSRule):
             rule = tempsheet.cssRules[0]
 
         elif isinstance(rule, cssutils.css.CSSRuleList):
-            # insert all rules
-            for i, r in enumerate(rule):
-                self.insertRule(r, index + i)
+            # insert all rules or none, so save for possible reset
+            oldCssRules = list(self._cssRules)
+            oldParents = [(r._parentRule, r._parentStyleSheet) for r in rule]
+            try:
+                for i, r in enumerate(rule):
+                    self.insertRule(r, index + i)
+            except xml.dom.DOMException:
+                # a rule has been rejected (if raising), reset
+                for r, parents in zip(rule, oldParents):
+                    r._parentRule, r._parentStyleSheet = parents
+                del self._cssRules[:]
+                list.extend(self._cssRules, oldCssRules)
+                raise
             return True, True
 
         elif not isinstance(rule, cssutils.css.CSSRule):
